@@ -192,6 +192,17 @@ class NewGen:
                 self.used.setdefault(depth, set()).add(n2)
                 members.insert(i + 1, twin)
         out = {"name": name, "tparams": tparams, "typedoc": None, "members": members}
+        # declaration layout (round 7): the type sits in a parenthesised group `type ( … )`; a type-level directive is then
+        # written above the GROUP (the comment go/ast hands the generator for a one-spec declaration too), and the spec may
+        # carry a plain comment of its own that says nothing about accessors
+        if self.rng.random() < opts.get("grouped", 0.12):
+            out["layout"] = "group"
+            out["specdoc"] = self.rng.random() < 0.6
+        # tags on EMBEDDED members (round 7): struct tags steer named fields only; an embedded struct carrying `new:"-"` (or
+        # any other tag) is expanded and promoted like an untagged one
+        for m in members:
+            if m["k"] == "e" and self.rng.random() < opts.get("embed_tag", 0.12):
+                m["etag"] = self.rng.choice(['new:"-"', 'new:"-"', 'new:"x" db:"-"', 'gorm:"embedded"'])
         # the struct embeds a POINTER TO ITSELF (`type T struct{ *T; … }`, repaired by 0c9404e): the generator passes it by --
         # its promoted fields are hidden by the struct's own -- so the model tree simply does not contain it
         if self.rng.random() < opts.get("selfembed", 0.0):
@@ -328,7 +339,14 @@ def render_struct(s):
         lines.append("// %s is a test type" % s["name"])
         if s["typedoc"] != "none-doc":
             lines.append("// shoot: %s" % s["typedoc"])
-    lines.append("type %s%s struct {" % (s["name"], tp))
+    grouped = s.get("layout") == "group" and s.get("pkg") != "sub"
+    if grouped:
+        lines.append("type (")
+        if s.get("specdoc"):
+            lines.append("\t// %s is declared inside a type group; this comment carries no directive" % s["name"])
+        lines.append("%s%s struct {" % (s["name"], tp))
+    else:
+        lines.append("type %s%s struct {" % (s["name"], tp))
     selfline = None
     if s.get("selfembed") and s.get("pkg") != "sub":
         targs = "[" + ", ".join(n for g, _ in s["tparams"] for n in g) + "]" if s.get("tparams") else ""
@@ -384,10 +402,13 @@ def render_struct(s):
             if m.get("new"):
                 lines.append("\t// shoot: new")
             targs = "[" + ", ".join(m["targs"]) + "]" if m.get("targs") else ""
-            lines.append("\t%s%s%s%s" % ("*" if m["ptr"] else "", "sub." if m.get("pkg") == "sub" else "", m["decl"]["name"], targs))
+            lines.append("\t%s%s%s%s%s" % ("*" if m["ptr"] else "", "sub." if m.get("pkg") == "sub" else "", m["decl"]["name"], targs,
+                                         (" `%s`" % m["etag"]) if m.get("etag") else ""))
     if selfline and s["selfembed"] == "last":
         lines.append(selfline)
     lines.append("}")
+    if grouped:
+        lines.append(")")
     return "\n".join(lines)
 
 
